@@ -503,8 +503,14 @@ func main() {
 			return
 		}
 		var rp struct{ Line string }
+		var hw struct{ HttpWholeServer bool }
 		vrt.LoadReplay(&rp)
-		enumLine(rp.Line)
+		vrt.LoadReplay(&hw)
+		if hw.HttpWholeServer {
+			httpWholeServer(res)
+		} else {
+			enumLine(rp.Line)
+		}
 		for _, v := range res.Violations {
 			fmt.Println(v.Key, "\n ", v.Msg)
 		}
@@ -549,6 +555,9 @@ func main() {
 		res.SetDistinctKeys(outcomes)
 	case "enum":
 		enum()
+		if *vrt.Shard == 0 && !vsched.Free() && vsched.FreeRuns == 0 {
+			httpWholeServer(res)
+		}
 		res.SetDistinctKeys(accepted)
 		res.States = int64(len(accepted))
 		res.Transitions = res.Evaluations
